@@ -100,7 +100,7 @@ func (p *listProp) Gen(r *Rand, tier string, idx int) any {
 	}
 	if lp.Kind == "referrers" {
 		for range lp.Items {
-			lp.ATypes = append(lp.ATypes, pick(r, []string{"application/vnd.example.sbom", "application/vnd.example.sig", ""}))
+			lp.ATypes = append(lp.ATypes, pick(r, []string{"application/vnd.example.sbom", "application/vnd.example.sig", "", "index", "index"}))
 		}
 		if r.Chance(0.5) {
 			lp.FilterAT = pick(r, []string{"application/vnd.example.sbom", "application/vnd.example.sig", "application/x-none"})
@@ -276,6 +276,20 @@ func (p *listProp) run(rc *RunCtx, lp *ListParams, info *RunInfo) *Verdict {
 		refDigests = map[string]string{}
 		var indexEntries []ocispec.Descriptor
 		for i, it := range lp.Items {
+			if lp.ATypes[i] == "index" {
+				// an index that refers to the subject: it has no artifact type (the entry the registry
+				// lists for it carries none) and here no annotations either
+				ix := ocispec.Index{MediaType: mtOCIIndex, Subject: &subject, Manifests: []ocispec.Descriptor{{MediaType: mtOCIManifest, Digest: digest.FromString("child-of-" + it), Size: 7}}}
+				ix.SchemaVersion = 2
+				b, _ := json.Marshal(ix)
+				d := reg.PutManifest(repoName, mtOCIIndex, b)
+				refDigests[d.String()] = it
+				indexEntries = append(indexEntries, ocispec.Descriptor{MediaType: mtOCIIndex, Digest: d, Size: int64(len(b))})
+				if lp.FilterAT == "" {
+					expected = append(expected, it)
+				}
+				continue
+			}
 			m := ocispec.Manifest{MediaType: mtOCIManifest, ArtifactType: lp.ATypes[i], Subject: &subject,
 				Config:      ocispec.Descriptor{MediaType: "application/vnd.oci.empty.v1+json", Digest: "sha256:44136fa355b3678a1146ad16f7e8649e94fb4fc21fe77e8310c060f61caaff8a", Size: 2},
 				Layers:      []ocispec.Descriptor{},
@@ -309,6 +323,7 @@ func (p *listProp) run(rc *RunCtx, lp *ListParams, info *RunInfo) *Verdict {
 	var res simrt.Result
 	var ociErr error
 	var staleV *Verdict
+	var deliveredDescs []ocispec.Descriptor
 	main := func() {
 		switch lp.Kind {
 		case "tags":
@@ -345,6 +360,7 @@ func (p *listProp) run(rc *RunCtx, lp *ListParams, info *RunInfo) *Verdict {
 				for _, d := range ds {
 					items = append(items, refDigests[d.Digest.String()])
 				}
+				deliveredDescs = append(deliveredDescs, ds...) // as handed over: their maps are looked at again at the end
 				return fn(items)
 			})
 		case "ocitags":
@@ -501,6 +517,28 @@ func (p *listProp) run(rc *RunCtx, lp *ListParams, info *RunInfo) *Verdict {
 	}
 	if staleV != nil {
 		return staleV
+	}
+	if lp.Kind == "referrers" && !lp.NoAPI {
+		// what was handed to the callback is, and stays, what the registry lists for that manifest
+		model := map[string]ocispec.Descriptor{}
+		for _, d := range reg.ReferrersModel(repoName, subject.Digest) {
+			model[d.Digest.String()] = d
+		}
+		for _, d := range deliveredDescs {
+			m, ok := model[d.Digest.String()]
+			if !ok {
+				continue
+			}
+			same := d.ArtifactType == m.ArtifactType && len(d.Annotations) == len(m.Annotations)
+			for k, v := range m.Annotations {
+				if d.Annotations[k] != v {
+					same = false
+				}
+			}
+			if !same {
+				return violation("wrong-item-metadata", "", "referrers: %s was delivered (or later became) artifactType=%q annotations=%v, the registry lists artifactType=%q annotations=%v", refDigests[d.Digest.String()], d.ArtifactType, d.Annotations, m.ArtifactType, m.Annotations)
+			}
+		}
 	}
 	if lp.Kind == "ocitags" {
 		gone := map[string]bool{}
